@@ -493,6 +493,7 @@ def main():
         for st in cfg.get("streams", [cfg["stream"]]):
             # per-stream scale: streams with heavy lines take a fraction of the case count
             n_st = max(1, int(ncases * cfg.get("stream_scale", {}).get(st, 1.0)))
+            n_st = min(n_st, cfg.get("stream_cap", {}).get(st, n_st))
             lines += keep_ops(cfg, gen_ops(st, seed, n_st))
         impl, e1 = run_impl(lines)
         model, e2 = run_model(lines)
